@@ -141,7 +141,7 @@ def ensure_facts(fresh=False, log=sys.stderr):
             if os.path.isdir(tmp):
                 shutil.rmtree(tmp)
             print("[nvs] extracting facts for tree %s ..." % th, file=log)
-            secs = run_driver(tmp, os.path.join(CACHE, "target"), log=log)
+            secs = run_driver(tmp, os.environ.get("NVS_TARGET") or os.path.join(CACHE, "target"), log=log)
             os.rename(tmp, d)
             with open(ok, "w") as fh:
                 fh.write("%f\n" % secs)
